@@ -32,28 +32,9 @@ def reader_consts(kind, workers, chunks, terminated=True, bad=(), panic=(), empt
     return c
 
 
-def write_model(base, consts, spec="Spec", invariants=(), properties=(), postcondition=None, extra_defs="",
-                seq_consts=("Chunks", "Calls"), deadlock=False):
-    """Returns (dir, module, cfg) of a generated MC wrapper extending `base` with the given constants."""
-    mod = "MCgen"
-    defs = []
-    lines = [f"SPECIFICATION {spec}", "CONSTANTS"]
-    for k, v in consts.items():
-        if k in seq_consts:
-            defs.append(f"K_{k} == {tla_seq(v) if v and isinstance(v[0], str) else '<<' + ','.join(map(str, v)) + '>>'}")
-            lines.append(f" {k} <- K_{k}")
-        else:
-            lines.append(f" {k} = {v}")
-    if invariants:
-        lines.append("INVARIANTS " + " ".join(invariants))
-    if properties:
-        lines.append("PROPERTIES " + " ".join(properties))
-    if postcondition:
-        lines.append("POSTCONDITION " + postcondition)
-    lines.append("CHECK_DEADLOCK " + ("TRUE" if deadlock else "FALSE"))
-    text = f"---- MODULE {mod} ----\nEXTENDS {base}\n" + "\n".join(defs) + "\n" + extra_defs + "\n====\n"
-    d = core.scratch_spec({mod + ".tla": text, mod + ".cfg": "\n".join(lines) + "\n"})
-    return d, mod, mod + ".cfg"
+def write_model(base, consts, **kw):
+    kw.setdefault("seq_consts", ("Chunks", "Calls"))
+    return core.write_model(base, consts, **kw)
 
 
 READER_INV = ["TypeOK", "InOrder", "NoFalseSuccess", "WorkerBound", "PushSeesOpen"]
